@@ -225,7 +225,7 @@ def check(case: t.Any, ctx: Ctx) -> None:
 def dup_cases(shard: int, nshards: int) -> t.Iterator[t.Any]:
     i = 0
     for lay in ('internal', 'external', ['adjacent', 't', 'c']):
-        for vals in (['a', 'a'], [1, 1], ['a', 'b', 'a'], [1, 2, 2], ['a', 'b']):
+        for vals in (['a', 'a'], [1, 1], ['a', 'b', 'a'], [1, 2, 2], ['a', 'b'], 'inherited-tag-overridden-without-annotation', 'inherited-tag-overridden-with-annotation'):
             if i % nshards == shard:
                 yield [lay, vals]
             i += 1
@@ -234,6 +234,35 @@ def dup_cases(shard: int, nshards: int) -> t.Iterator[t.Any]:
 def check_dup(case: t.Any, ctx: Ctx) -> None:
     from pane.convert import make_converter
     (lay, vals) = case
+    if isinstance(vals, str):
+        # variants that inherit the tag field from a common base and override it in their body: the tag a variant *declares* is the
+        # tag its instances *carry*; if two variants carry the same tag the union is refused, otherwise data is dispatched by it
+        import pane
+        from pane.annotations import Tagged
+        ann = vals.endswith('with-annotation')
+        Shape = type('Shape', (pane.PaneBase,), {'__annotations__': {'kind': str, 'label': str}, 'kind': 'shape', 'label': ''}, kw_only=True)
+        Circle = type('Circle', (Shape,), {'__annotations__': {'r': float, **({'kind': str} if ann else {})}, 'kind': 'circle'})
+        Square = type('Square', (Shape,), {'__annotations__': {'s': float, **({'kind': str} if ann else {})}, 'kind': 'square'})
+        ext = {'internal': False, 'external': True}.get(lay if isinstance(lay, str) else '', tuple(lay[1:]) if not isinstance(lay, str) else False)
+        T = t.Annotated[t.Union[Circle, Square], Tagged('kind', external=ext)]
+        carried = [Circle(r=1.0).kind, Square(s=1.0).kind]
+        ctx.label(f"inherited-tag:{'annotated' if ann else 'bare'}")
+        ctx.nontrivial(True)
+        (k, conv) = outcome(lambda: make_converter(T))
+        if len(set(carried)) < 2:
+            if k == 'ok' or not isinstance(conv, TypeError):
+                ctx.fail('duplicate-tags-refused', 'inherited-tag', f"Circle and Square (tag field inherited from Shape, overridden {'with' if ann else 'without'} an annotation) "
+                         f"both carry the tag {carried[0]!r}, but building the union {'succeeded' if k == 'ok' else 'raised ' + type(conv).__name__}")
+            return
+        if k != 'ok':
+            ctx.fail('duplicate-tags-refused', 'distinct-refused', f"variants carrying distinct tags {carried} refused: {conv}")
+            return
+        x = Square(s=2.0)
+        (k2, d) = outcome(lambda: conv.into_data(x))
+        (k3, y) = outcome(lambda: conv.convert(d)) if k2 == 'ok' else ('-', None)
+        if k2 != 'ok' or k3 != 'ok' or type(y) is not Square or y.kind != x.kind:
+            ctx.fail('tag-dispatch', 'inherited-tag', f"Square(s=2.0) (carrying tag {x.kind!r}) written as {short(d, 80)} ({k2}), read back as {short(y, 80)} ({k3})")
+        return
     variants = [{'name': f"Dup{i}", 'fields': [{'name': 'tag', 'type': ('lit', (v,)), 'default': ['value', v]}], 'opts': {}} for (i, v) in enumerate(vals)]
     nd = cg.TaggedNode(('tagged', lay, 'tag', tuple(variants)))
     dup = len(set(vals)) != len(vals)
